@@ -204,6 +204,12 @@ def r19_4(ctx: Ctx):
     for p in ex.explore(it):
         selfv = var(it.param_names[0])
         if p.outcome == 'raise':
+            # a non-empty container must be iterable: raising is allowed only when the first item is None
+            first_none = Lit('isnone', key=key_of(attr(selfv, first_field)), pol=True)
+            ctx.check(C.has_lit(C.lits_mod_ver(p.guards), C.lits_mod_ver([first_none])[0]), rid, it.short, it.loc(),
+                      '__iter__ raises only for an empty container',
+                      '__iter__ raises although the container has a first item: a non-empty container cannot be '
+                      'iterated', key=f'{rid}::iter-raises-nonempty')
             continue
         n += 1
         ok = key_of(p.value) == key_of(selfv)
@@ -411,7 +417,66 @@ def r19_6(ctx: Ctx):
                     okp = False
             ctx.check(okp, rid, m.short, m.loc(), 'emptiness is tested (and the queue refilled) before every pop',
                       'the queue is popped without the refill-if-empty test', key=f'{rid}::{m.short}::empty-test')
+            _check_refill_when_empty(ctx, rid, m, p, pops)
     ctx.floor(rid, 'paths of the dual-queue requests', n, 4)
+    # the request of the base container: same refill-if-empty discipline (a bounded queue can run empty while the
+    # container still holds intervals)
+    base = ctx.ix.cls('SearchData')
+    mb = base.lookup('GetDataItemWithMaxGlobalR')
+    nb = 0
+    if mb is not None:
+        for p in C.normal_paths(ex.explore(mb)):
+            pops = [e for e in p.events if e.kind == 'call' and e.d['name'] == 'GetBestItem']
+            if pops:
+                nb += 1
+                _check_refill_when_empty(ctx, rid, mb, p, pops)
+    ctx.floor(rid, 'popping paths of the base request', nb, 2)
+
+
+def _check_refill_when_empty(ctx: Ctx, rid: str, m, p, pops):
+    """On a path where the emptiness test in front of a pop came out true, the queue is refilled before the pop."""
+    evs = p.events
+    ok = True
+    for e in pops:
+        i = evs.index(e)
+        prev_pop = max([evs.index(x) for x in pops if evs.index(x) < i], default=-1)
+        for x in evs[prev_pop + 1:i]:
+            if x.kind == 'call' and x.d['name'] == 'IsEmpty' and C.result_of(p, x) is not None:
+                empty = Lit('truth', key=key_of(C.result_of(p, x)), pol=True)
+                if C.has_lit(p.guards, empty):
+                    j = evs.index(x)
+                    if not any(y.kind == 'call' and y.d['name'] == 'RefillQueue' for y in evs[j + 1:i]):
+                        ok = False
+    ctx.check(ok, rid, m.short, m.loc(), 'an empty queue is refilled before it is popped',
+              f'{m.short} pops the queue on a path where it was found empty without refilling it first: a bounded queue '
+              f'that has run empty raises instead of returning the best of the remaining intervals',
+              key=f'{rid}::{m.short}::refill-when-empty')
+
+
+def r19_9(ctx: Ctx):
+    """The queue wrapper forwards each operation to the matching operation of the double-ended queue."""
+    rid = 'R19.9'
+    ctx.rule(rid, 'wrapper completeness: Clear forwards to clear(), IsEmpty returns is_empty() of the wrapped queue')
+    q = ctx.ix.cls('CharacteristicsQueue')
+    ex = ctx.explorer()
+    n = 0
+    for mname, ext, returns in (('Clear', 'clear', False), ('IsEmpty', 'is_empty', True)):
+        m = q.lookup(mname)
+        if m is None:
+            ctx.fail(rid, f'CharacteristicsQueue.{mname}', q.module.relpath, f'{mname} is missing',
+                     key=f'{rid}::{mname}::missing')
+            continue
+        for p in C.normal_paths(ex.explore(m)):
+            n += 1
+            calls = [e for e in p.events if e.kind == 'call' and e.d['name'] == ext and e.d.get('ext')]
+            ok = len(calls) == 1
+            if ok and returns:
+                ok = p.value is not None and key_of(p.value) == key_of(calls[0].d['result'])
+            ctx.check(ok, rid, m.short, m.loc(), f'{mname} forwards to {ext}()',
+                      f'{m.short} does not forward to {ext}() of the wrapped queue' +
+                      (' and return its answer' if returns else '') +
+                      ': the container clears / tests nothing', key=f'{rid}::{m.short}::forwards')
+    ctx.floor(rid, 'paths of the forwarding operations of the queue wrapper', n, 2)
 
 
 def r19_8(ctx: Ctx):
@@ -450,7 +515,7 @@ def r19_8(ctx: Ctx):
 
 def check(ctx: Ctx):
     for rid, fn in (('R19.1', r19_1), ('R19.2', r19_2), ('R19.4', r19_4), ('R19.5', r19_5_7), ('R19.6', r19_6),
-                    ('R19.8', r19_8)):
+                    ('R19.8', r19_8), ('R19.9', r19_9)):
         if C.want(ctx, rid) or (rid == 'R19.5' and C.want(ctx, 'R19.7')) or (rid == 'R19.1' and C.want(ctx, 'R19.3')):
             fn(ctx)
     ctx.rule('R19.3', 'append-once and GetCount = len(list of all trials) (decided inside R19.1)')
